@@ -13,6 +13,8 @@ func init() {
 	zzverif.Register("VerifC07Lines", VerifC07Lines)
 	zzverif.Register("VerifC07Deep", VerifC07Deep)
 	zzverif.Register("VerifC07Deep2", VerifC07Deep2)
+	zzverif.Register("VerifC07LinesDeep", VerifC07LinesDeep)
+	zzverif.Register("VerifC07SpecialDeep", VerifC07SpecialDeep)
 }
 
 // C07: a journal J of three entries (fixed G shapes); one entry e is damaged; every other
@@ -38,11 +40,28 @@ var c07Shapes = []string{
 	"include o.journal\n",
 	// 5: transaction, 3 postings: secondary date, pending, virtual postings, quoted commodity, strict assertion
 	"2024-01-17=2024-01-18 ! pay\n  (v:x)  -1 \"a b\"\n  [w:y]  2.5 USD == 3 USD ; n:\n  z:q\n",
+	// 6 (c07NbTx): a shorter transaction, only used as a neighbour in the quick tier
+	"2024-01-15 * (c1) shop ; k: v\n  a:food  $1.50\n  a:cash  = $9\n",
 }
+
+const c07NbTx = 6
 
 // ---------- rendering of extracted entries with shifted positions ----------
 
-type c07Shift struct{ dl, do int }
+type c07Shift struct {
+	dl, do int
+	// maskEndFrom > 0: the End of an entry's own range is rendered as "E" when it lies on a line
+	// >= maskEndFrom (used only under the known-finding class c07-prev-end-after-leading-punct)
+	maskEndFrom int
+}
+
+// erng renders the range of a whole entry (transaction / directive).
+func (s c07Shift) erng(r ast.Range) string {
+	if s.maskEndFrom > 0 && r.End.Line >= s.maskEndFrom {
+		return "[" + s.posz(r.Start) + "-E]"
+	}
+	return s.rng(r)
+}
 
 func (s c07Shift) pos(p ast.Position) string {
 	return zzverif.Itoa(p.Line-s.dl) + ":" + zzverif.Itoa(p.Column) + ":" + zzverif.Itoa(p.Offset-s.do)
@@ -116,7 +135,7 @@ func (s c07Shift) tx(t ast.Transaction) string {
 	for _, p := range t.Postings {
 		out += s.posting(p)
 	}
-	return out + s.tags(t.Tags) + s.comments(t.Comments) + s.rng(t.Range) + "}"
+	return out + s.tags(t.Tags) + s.comments(t.Comments) + s.erng(t.Range) + "}"
 }
 
 func c07Subdirs(m map[string]string) string {
@@ -132,9 +151,9 @@ func c07Subdirs(m map[string]string) string {
 func (s c07Shift) dir(d ast.Directive) string {
 	switch d := d.(type) {
 	case ast.AccountDirective:
-		return "account{" + d.Account.Name + s.rng(d.Account.Range) + "|" + d.Comment + s.tags(d.Tags) + c07Subdirs(d.Subdirs) + s.rng(d.Range) + "}"
+		return "account{" + d.Account.Name + s.rng(d.Account.Range) + "|" + d.Comment + s.tags(d.Tags) + c07Subdirs(d.Subdirs) + s.erng(d.Range) + "}"
 	case ast.CommodityDirective:
-		return "commodity{" + d.Commodity.Symbol + s.rng(d.Commodity.Range) + "|" + d.Format + "|" + d.Note + c07Subdirs(d.Subdirs) + s.rng(d.Range) + "}"
+		return "commodity{" + d.Commodity.Symbol + s.rng(d.Commodity.Range) + "|" + d.Format + "|" + d.Note + c07Subdirs(d.Subdirs) + s.erng(d.Range) + "}"
 	case ast.PriceDirective:
 		return "P{" + s.date(d.Date) + "|" + d.Commodity.Symbol + s.rng(d.Commodity.Range) + "|" + s.amount(&d.Price) + s.rng(d.Range) + "}"
 	case ast.YearDirective:
@@ -267,6 +286,29 @@ func c07Damage(e string, kind, m int, hasPrev bool) string {
 	}
 }
 
+// c07LatePunctAt: s starts with a character for which the lexer builds the token after it has
+// consumed the character (lexer.go makeToken):  | ) [ ]  and '(' when a ':' follows before the
+// next ')' or the line end.
+func c07LatePunctAt(s string) bool {
+	if len(s) == 0 {
+		return false
+	}
+	switch s[0] {
+	case '|', ')', '[', ']':
+		return true
+	case '(':
+		for i := 1; i < len(s); i++ {
+			if s[i] == ')' || s[i] == '\n' {
+				return false
+			}
+			if s[i] == ':' {
+				return true
+			}
+		}
+	}
+	return false
+}
+
 func c07CountNL(s string) int {
 	n := 0
 	for i := 0; i < len(s); i++ {
@@ -277,21 +319,35 @@ func c07CountNL(s string) int {
 	return n
 }
 
-// verifC07 runs one containment experiment: entries k0 k1 k2 (indices into c07Shapes), entry
-// idx damaged.
-func verifC07(k [3]int, idx, kind, m int) {
-	var ent [3]string
-	for i := range ent {
-		ent[i] = c07Shapes[k[i]]
+// c07J is one experiment: the entries of the journal and the index of the damaged one.
+type c07J struct {
+	ent []string
+	// endsAtNext[i]: the parser sets the Range.End of entry i (transaction, account and commodity
+	// directive) to the position of the first token after the entry
+	endsAtNext []bool
+	idx        int
+}
+
+func c07Of(idx int, shapes ...int) c07J {
+	j := c07J{idx: idx}
+	for _, k := range shapes {
+		j.ent = append(j.ent, c07Shapes[k])
+		j.endsAtNext = append(j.endsAtNext, k == 0 || k == 1 || k == 2 || k == 5 || k == c07NbTx)
 	}
+	return j
+}
+
+// verifC07 runs one containment experiment: entry j.idx of the journal is damaged.
+func verifC07(j c07J, kind, m int) {
+	idx := j.idx
 	before, after := "", ""
 	for i := 0; i < idx; i++ {
-		before += ent[i]
+		before += j.ent[i]
 	}
-	for i := idx + 1; i < 3; i++ {
-		after += ent[i]
+	for i := idx + 1; i < len(j.ent); i++ {
+		after += j.ent[i]
 	}
-	e := ent[idx]
+	e := j.ent[idx]
 	dmg := c07Damage(e, kind, m, idx > 0)
 	if idx > 0 && len(dmg) > 0 {
 		// a first line that starts with white space is, by design, a continuation of the
@@ -318,7 +374,23 @@ func verifC07(k [3]int, idx, kind, m int) {
 	}
 	wantBefore := c07Side(ref, 1, first-1, c07Shift{})
 	gotBefore := c07Side(got, 1, first-1, c07Shift{})
-	zzverif.Assert(gotBefore == wantBefore, "C07: an entry before the damaged one is extracted differently")
+	if gotBefore != wantBefore && idx > 0 && j.endsAtNext[idx-1] && c07LatePunctAt(dmg) {
+		// class c07-prev-end-after-leading-punct (input: the entry before the damaged one is a
+		// transaction / account / commodity directive, and the damaged entry now starts with one of
+		// | ) [ ] or a '(' that is followed by ':' before the next ')'). The lexer gives these
+		// one-character tokens the position AFTER the character, and the preceding entry's
+		// Range.End is the position of the token that follows it: its End moves one column.
+		// Only that End is left out; content and every other position are still compared.
+		if zzverif.Known("c07-prev-end-after-leading-punct") {
+			zzverif.Reach("kf:c07-prev-end-after-leading-punct")
+			m := c07Shift{maskEndFrom: first}
+			zzverif.Assert(c07Side(got, 1, first-1, m) == c07Side(ref, 1, first-1, m), "C07: an entry before the damaged one is extracted differently")
+		} else {
+			zzverif.Assert(false, "C07: an entry before the damaged one is extracted differently [c07-prev-end-after-leading-punct]")
+		}
+	} else {
+		zzverif.Assert(gotBefore == wantBefore, "C07: an entry before the damaged one is extracted differently")
+	}
 	const far = 1 << 30
 	wantAfter := c07Side(ref, first+nl, far, c07Shift{})
 	gotAfter := c07Side(got, last+1, far, sh)
@@ -326,58 +398,86 @@ func verifC07(k [3]int, idx, kind, m int) {
 	zzverif.Reach("C07.contain.end")
 }
 
-// c07Config: the journals examined. Every shape is damaged with a transaction or a directive
-// with sub-directives before / after it, as first and as last entry of the file.
-func c07Config(shapes int, full bool) (k [3]int, idx int) {
+// c07Light: the journals of the quick tier. Every shape is damaged between a transaction and a
+// directive with sub-directives (both orders), as first entry of the file (a transaction
+// follows) and as last entry (a commodity directive with format precedes). The neighbours are
+// short: the cost of a path is the two parses.
+func c07Light(shapes int) c07J {
 	e := zzverif.Choice("e.kind", shapes)
-	if full {
-		idx = zzverif.Choice("idx", 3)
-		for i := 0; i < 3; i++ {
-			if i != idx {
-				k[i] = zzverif.Choice("k"+zzverif.Itoa(i), shapes)
-			}
-		}
-		k[idx] = e
-		return
-	}
 	switch zzverif.Choice("ctx", 4) {
 	case 0:
-		return [3]int{0, e, 1}, 1
+		return c07Of(1, c07NbTx, e, 1)
 	case 1:
-		return [3]int{1, e, 0}, 1
+		return c07Of(1, 1, e, c07NbTx)
 	case 2:
-		return [3]int{e, 0, 4}, 0
+		return c07Of(0, e, c07NbTx)
 	default:
-		return [3]int{4, 2, e}, 2
+		return c07Of(1, 2, e)
 	}
 }
 
+// c07Rich: three entries, the neighbours are the full shapes 0 / 1 / 2 / 4.
+func c07Rich(shapes int) c07J {
+	e := zzverif.Choice("e.kind", shapes)
+	switch zzverif.Choice("ctx", 4) {
+	case 0:
+		return c07Of(1, 0, e, 1)
+	case 1:
+		return c07Of(1, 1, e, 0)
+	case 2:
+		return c07Of(0, e, 0, 4)
+	default:
+		return c07Of(2, 4, 2, e)
+	}
+}
+
+// c07Full: three entries, every shape at every place, every place damaged.
+func c07Full(shapes int) c07J {
+	idx := zzverif.Choice("idx", 3)
+	var k [3]int
+	for i := range k {
+		k[i] = zzverif.Choice("k"+zzverif.Itoa(i), shapes)
+	}
+	return c07Of(idx, k[0], k[1], k[2])
+}
+
+var (
+	c07ByteDamages = []int{c07Overwrite, c07Insert, c07Special}
+	c07LineDamages = []int{c07Truncate, c07DelLine, c07DupLine, c07SwapLines}
+)
+
 // quick tier
-func VerifC07Bytes() { // one arbitrary byte overwritten / inserted, one special character inserted
-	k, idx := c07Config(5, false)
-	verifC07(k, idx, []int{c07Overwrite, c07Insert, c07Special}[zzverif.Choice("dmg", 3)], 1)
+func VerifC07Bytes() { // one arbitrary byte overwritten / inserted, one special character inserted, at every offset
+	verifC07(c07Light(5), c07ByteDamages[zzverif.Choice("dmg", 3)], 1)
 }
 
-func VerifC07Bytes2() { // two arbitrary bytes overwritten / inserted
-	k, idx := c07Config(5, false)
-	verifC07(k, idx, []int{c07Overwrite, c07Insert}[zzverif.Choice("dmg", 2)], 2)
+func VerifC07Bytes2() { // two arbitrary bytes overwritten / inserted at every offset of a P directive and of an account directive
+	j := c07Of(1, c07NbTx, []int{3, 1}[zzverif.Choice("e.kind", 2)], 1)
+	verifC07(j, c07ByteDamages[zzverif.Choice("dmg", 2)], 2)
 }
 
-func VerifC07Lines() { // truncation, deleted / duplicated / exchanged lines
-	k, idx := c07Config(6, true)
-	verifC07(k, idx, []int{c07Truncate, c07DelLine, c07DupLine, c07SwapLines}[zzverif.Choice("dmg", 4)], 0)
+func VerifC07Lines() { // truncation at every offset, deleted / duplicated / exchanged lines
+	verifC07(c07Rich(6), c07LineDamages[zzverif.Choice("dmg", 4)], 0)
 }
 
 // thorough tier
-func VerifC07Deep() {
-	k, idx := c07Config(6, true)
-	verifC07(k, idx, []int{c07Overwrite, c07Insert, c07Special}[zzverif.Choice("dmg", 3)], 1)
+func VerifC07Deep() { // as Bytes, all six shapes, full-size neighbours
+	verifC07(c07Rich(6), c07ByteDamages[zzverif.Choice("dmg", 3)], 1)
 }
 
-func VerifC07Deep2() {
-	k, idx := c07Config(6, false)
-	verifC07(k, idx, []int{c07Overwrite, c07Insert}[zzverif.Choice("dmg", 2)], 2)
+func VerifC07Deep2() { // two arbitrary bytes, every shape, between a transaction and an account directive and as last entry
+	e := zzverif.Choice("e.kind", 6)
+	j := c07Of(1, c07NbTx, e, 1)
+	if zzverif.Choice("ctx", 2) == 1 {
+		j = c07Of(1, 2, e)
+	}
+	verifC07(j, c07ByteDamages[zzverif.Choice("dmg", 2)], 2)
 }
 
-func VerifC07Probe() { verifC07([3]int{0, 3, 1}, 1, c07Overwrite, 1) }
-func VerifC07Probe2() { verifC07([3]int{0, 3, 1}, 1, c07Overwrite, 2) }
+func VerifC07LinesDeep() { // line damages with every shape at every place
+	verifC07(c07Full(6), c07LineDamages[zzverif.Choice("dmg", 4)], 0)
+}
+
+func VerifC07SpecialDeep() { // one special character inserted at every offset, every shape at every place
+	verifC07(c07Full(6), c07Special, 1)
+}
